@@ -149,6 +149,7 @@ enum Op {
     BoxGenerate,
     BoxMap,
     BoxZip,
+    BoxInvZipStack,
     BoxFold,
     BoxClone,
 }
@@ -172,6 +173,7 @@ impl Op {
             Op::BoxGenerate => "Box::generate".into(),
             Op::BoxMap => "Box::map".into(),
             Op::BoxZip => "Box::zip".into(),
+            Op::BoxInvZipStack => "Box::inverted_zip(stack array)".into(),
             Op::BoxFold => "Box::fold".into(),
             Op::BoxClone => "Box::clone".into(),
         }
@@ -194,13 +196,14 @@ impl Op {
             Op::BoxGenerate => "Box::generate",
             Op::BoxMap => "Box::map",
             Op::BoxZip => "Box::zip",
+            Op::BoxInvZipStack => "Box::inverted_zip(stack)",
             Op::BoxFold => "Box::fold",
             Op::BoxClone => "Box::clone",
         }
     }
     /// does the operation call back into caller-supplied code (panic grid)?
     fn has_callbacks(&self) -> bool {
-        matches!(self, Op::TryBoxedFromIter { .. } | Op::BoxFromIter | Op::DefaultBoxed | Op::BoxGenerate | Op::BoxMap | Op::BoxZip | Op::BoxFold | Op::BoxClone)
+        matches!(self, Op::TryBoxedFromIter { .. } | Op::BoxFromIter | Op::DefaultBoxed | Op::BoxGenerate | Op::BoxMap | Op::BoxZip | Op::BoxInvZipStack | Op::BoxFold | Op::BoxClone)
     }
 }
 
@@ -223,7 +226,7 @@ fn all_ops() -> Vec<Op> {
     for d in [-1, 1, i32::MIN] {
         v.push(Op::BoxFromIterLying { c_delta: d });
     }
-    v.extend([Op::BoxFromIter, Op::DefaultBoxed, Op::BoxGenerate, Op::BoxMap, Op::BoxZip, Op::BoxFold, Op::BoxClone]);
+    v.extend([Op::BoxFromIter, Op::DefaultBoxed, Op::BoxGenerate, Op::BoxMap, Op::BoxZip, Op::BoxFold, Op::BoxClone, Op::BoxInvZipStack]);
     v
 }
 
@@ -339,6 +342,11 @@ fn exec<E: Elem + Clone + Default, N: ArrayLength>(op: Op, cx: Ctx) -> Result<Op
                 rep.out_ptr = v.as_ptr() as usize;
                 if v.capacity() < v.len() {
                     return Err("ContentMismatch: into_vec capacity < len".into());
+                }
+                if sz > 0 && v.capacity() != n {
+                    // the Vec owns the array's block, which holds exactly N elements: a different
+                    // capacity misdescribes it (writes within capacity leave it; it is freed with the wrong size)
+                    return Err(format!("BlockMisdescribed: into_vec returns capacity {} for the {n}-element block it took over", v.capacity()));
                 }
                 same::<E>("into_vec", &keys(&v), &want)?;
             }
@@ -534,6 +542,24 @@ fn exec<E: Elem + Clone + Default, N: ArrayLength>(op: Op, cx: Ctx) -> Result<Op
             if let Some(c) = out {
                 let c: Box<GA<E, N>> = c;
                 same::<E>("Box::zip", &keys(&c[..]), &want)?;
+            }
+        }
+        Op::BoxInvZipStack => {
+            // the trait's own entry point with a boxed right operand and a stack left operand: the
+            // box is consumed by the call and its block must come back to the allocator
+            let a: GA<E, N> = mk();
+            let b: Box<GA<E, N>> = Box::new(mk());
+            let want = keys(&a[..]);
+            let mut f = Fuse::new("zip", cx.panic_at);
+            let out = guarded!(GenericSequence::inverted_zip(b, a, |l: E, r: E| {
+                f.tick();
+                drop(r);
+                l
+            }));
+            rep.calls = f.calls;
+            if let Some(c) = out {
+                let c: GA<E, N> = c;
+                same::<E>("Box::inverted_zip(stack)", &keys(&c[..]), &want)?;
             }
         }
         Op::BoxFold => {
@@ -925,6 +951,18 @@ fn few_huge_op(which: &str) -> u64 {
         other => panic!("unknown op {other}"),
     }
 }
+/// list form of box_arr! with a few 1 MiB constants as elements (a path to a const item is
+/// materialised in place, so nothing of that size needs to cross the 256 KiB stack)
+const MEG: [u8; 1 << 20] = [0x5A; 1 << 20];
+fn list_huge_op() -> u64 {
+    let b = box_arr![MEG, MEG, MEG, MEG];
+    assert_eq!(b.len(), 4);
+    b.iter().fold(0u64, |h, x| h.wrapping_mul(31).wrapping_add(x[0] as u64 + x[(1 << 20) - 1] as u64))
+}
+fn expected_list_huge() -> u64 {
+    (0..4).fold(0u64, |h, _| h.wrapping_mul(31).wrapping_add(0x5A + 0x5A))
+}
+
 fn expected_few_huge() -> u64 {
     (0..48).fold(0u64, |h, _| h.wrapping_mul(31).wrapping_add(0x5A + 0x5A))
 }
@@ -938,7 +976,7 @@ fn child_bigstack(args: &Args) -> ! {
     let w = which.clone();
     let h = std::thread::Builder::new()
         .stack_size(256 * 1024)
-        .spawn(move || if mib == 0 { few_huge_op(&w) } else if mib == 16 { big_op::<Big16>(&w) } else { big_op::<Big8>(&w) })
+        .spawn(move || if w == "box_arr_list" { list_huge_op() } else if mib == 0 { few_huge_op(&w) } else if mib == 16 { big_op::<Big16>(&w) } else { big_op::<Big8>(&w) })
         .expect("spawn thread")
         .join();
     match h {
@@ -1118,6 +1156,22 @@ fn bigstack(st: &mut Stats, args: &Args) {
     }
     // 0 = "few huge elements" (48 x 16 KiB), otherwise MiB of u64
     let sizes: &[usize] = if args.thorough() { &[0, 8, 16] } else { &[0, 8] };
+    {
+        let which = "box_arr_list";
+        if let Some(desc) = st.select(|| "C15 bigstack box_arr![MEG, MEG, MEG, MEG] (4 x 1MiB const elements, list form) on a 256KiB stack".to_string()) {
+            let out = spawn_child(&["child=bigstack".into(), format!("op={which}"), "mib=4".into()]);
+            let want = format!("CHILD-SUM {}", expected_list_huge());
+            st.op("bigstack");
+            st.count("c15.bigstack_children", 1);
+            if out.code == Some(0) && out.stdout.contains(&want) {
+            } else if out.code == Some(0) {
+                st.violation("C15", "bigstack.box_arr_list|[u8;1MiB]|ContentMismatch", &desc, &format!("child printed {:?}, expected {want}", out.stdout.trim()));
+            } else {
+                st.violation("C15", "bigstack.box_arr_list|[u8;1MiB]|StackOverflow", &desc, &format!("child died code={:?} signal={:?}: {}", out.code, out.signal, tail(&out.stderr)));
+            }
+            st.done(&desc, true);
+        }
+    }
     for &mib in sizes {
         for which in BIG_OPS {
             let Some(desc) = st.select(|| if mib == 0 { format!("C15 bigstack {which} 48x8KiB elements on a 256KiB stack") } else { format!("C15 bigstack {which} {mib}MiB on a 256KiB stack") }) else { continue };
